@@ -160,9 +160,9 @@ func init() {
 		Rule: "case = one generated table playing 6..13 hands with random / aggressive / passive policies (3-bet and 4-bet lines, fold-outs, all-ins), sitting-out and busted players in the player list, busts with re-buys; " +
 			"non-trivial = a table with a hand of at least three accepted wager actions; distinct = fingerprint of the betting lines",
 		Assumptions: []string{"'raises never exceed actions' and 'at least the accepted raise calls' bound the raise counter (a bet or all-in counts as a raise only when it makes the player the raiser)", "the last action of a hand cannot race settlement: the updater takes the engine lock before it publishes"},
-		Cases:       func(tier string) int { return map[string]int{"quick": 400, "thorough": 12000}[tier] },
+		Cases:       func(tier string) int { return map[string]int{"quick": 400, "thorough": 6000}[tier] },
 		MinNontrivial: func(tier string) int {
-			return map[string]int{"quick": 250, "thorough": 8000}[tier]
+			return map[string]int{"quick": 250, "thorough": 4000}[tier]
 		},
 		RequiredFeatures: func(string) []string { return []string{"fold", "re-raised-pot", "flag:3-bet", "chance:3-bet", "refused-out-of-turn:fold"} },
 		CaseTimeout:      200e9,
